@@ -16,11 +16,17 @@ ASSUMPTIONS = [
 ]
 BOUNDS = {
     "quick": "pair (domain 2 and 3, all schedules), chain-3 and triangle (domain 2, canonical schedule); max_distance in {d, d+1}; <= 8 cycles",
-    "thorough": "quick + chain-3 and triangle with all schedules (domain 2), triangle domain 3 (graph colouring shape) canonical schedule",
+    "thorough": "quick + chain-3 and triangle with all schedules (domain 2), triangle domain 3 canonical schedule, triangle+pendant (4 computations) with pinned hard tables, free initial values and every interleaving of the deliveries to the hub, 3 cycles",
 }
 OUTSIDE = "more than 3 variables, domains above 3, finishes after the 8th cycle, max_distance below the diameter"
-CAP_S = {"quick": 1200, "thorough": 10800}
-DIAM = {"pair": 1, "chain3": 2, "triangle": 1}
+CAP_S = {"quick": 1200, "thorough": 18000}
+DIAM = {"pair": 1, "chain3": 2, "triangle": 1, "tri_pendant": 2}
+INFV = 10000
+# hard tables of a satisfiable CSP on the triangle-with-pendant graph: x != w, not(x=0 and y=1), not(x=0 and z=1), y != z
+HARD4 = {"c3_00": INFV, "c3_01": 0, "c3_10": 0, "c3_11": INFV,
+         "c0_00": 0, "c0_01": INFV, "c0_10": 0, "c0_11": 0,
+         "c1_00": 0, "c1_01": INFV, "c1_10": 0, "c1_11": 0,
+         "c2_00": INFV, "c2_01": 0, "c2_10": 0, "c2_11": INFV}
 
 
 def jobs(tier):
@@ -35,6 +41,10 @@ def jobs(tier):
             {"name": "chain3-d2-allsched", "spec": spec("chain3", "min"), "fixed": False},
             {"name": "triangle-d2-allsched", "spec": spec("triangle", "min"), "fixed": False},
             {"name": "triangle-d3-fixed", "spec": spec("triangle", "min", dom=3), "fixed": True},
+            # 4 computations, every FIFO interleaving of the deliveries to the hub x (others in canonical order): tables pinned
+            # to one satisfiable CSP, initial values / ties / max_distance free, 3 cycles (millions of paths)
+            {"name": "tri_pendant-pinned-hubsched", "spec": spec("tri_pendant", "min", pins=HARD4), "fixed": False, "cycles": 3,
+             "free_targets": ["x"]},
         ]
     return out
 
@@ -48,6 +58,8 @@ def run(eng, p):
     cg, comps = build_computations(inst.dcop, "dba", "min", {"max_distance": md, "infinity": INF})
     bench = Bench(eng)
     bench.fixed_schedule = bool(p.get("fixed"))
+    if p.get("free_targets"):
+        bench.free_targets = set(p["free_targets"])
     for c in comps:
         bench.add(c)
     snapshots = []
@@ -57,7 +69,7 @@ def run(eng, p):
     bench.on_finished = on_finished
     try:
         bench.start_all()
-        status = bench.run(max_steps=400, stop=lambda: any(c.cycle_count >= 8 for c in comps))
+        status = bench.run(max_steps=400, stop=lambda: any(c.cycle_count >= p.get("cycles", 8) for c in comps))
     except Exception as e:
         eng.notes["outcome"] = {"exc": str(e)}
         eng.fail("exception %s: %s" % (type(e).__name__, e), detail=traceback.format_exc(limit=-4))
